@@ -552,3 +552,117 @@ Proof.
         rewrite (find_index_app_same _ _ _ F M). now rewrite replace_nth_app_last.
       * apply no_null_here in NN. congruence.
 Qed.
+
+(* ---------- FRAME ---------- *)
+Definition same_container (n n' : node) : Prop :=
+  match n, n' with Map _, Map _ | Seq _, Seq _ => True | _, _ => False end.
+
+Lemma lookup_cons_congr q qs n n' :
+  child q n' = child q n -> same_container n n' -> lookup (q :: qs) n' = lookup (q :: qs) n.
+Proof.
+  intros E SC. destruct (child q n) as [z|] eqn:C.
+  - now rewrite (lookup_found _ _ _ _ E), (lookup_found _ _ _ _ C).
+  - unfold lookup.
+    destruct q; destruct n, n'; cbn in SC; try contradiction; cbn in E, C |- *; try reflexivity.
+    + now rewrite E, C.
+    + now rewrite E, C.
+    + destruct es0 as [|e0 es0]; destruct es as [|e es]; cbn in *;
+        try rewrite E; try rewrite C; reflexivity.
+    + destruct (find_index (sel_match nm v) es0) as [i|] eqn:F0;
+        [destruct (find_index_some _ _ _ F0) as [? [? _]]; congruence|].
+      destruct (find_index (sel_match nm v) es) as [j|] eqn:F1;
+        [destruct (find_index_some _ _ _ F1) as [? [? _]]; congruence|].
+      reflexivity.
+Qed.
+
+Lemma no_sel_key_read_tail q qs : no_sel_key_read (q :: qs) -> no_sel_key_read qs.
+Proof. destruct q; cbn; tauto. Qed.
+
+(* a path diverging from the one along which a fresh node was populated finds nothing in the fresh node *)
+Lemma lookup_fresh_none {A} cr ps qs (k : node -> res (node * A)) leaf y r :
+  diverges ps qs ->
+  walk cr ps k (empty_of (kind_before (hd_error ps) leaf)) = Ok (y, r) ->
+  lookup qs (empty_of (kind_before (hd_error ps) leaf)) = Ok None.
+Proof.
+  intros D W. destruct D as [p q ps qs Hpq|p ps qs D].
+  - destruct Hpq; cbn in *; try reflexivity. destruct j; reflexivity.
+  - destruct p; cbn in *; try reflexivity; try discriminate. destruct i; reflexivity.
+Qed.
+
+Lemma lookup_sel_new_none {A} cr ps qs (k : node -> res (node * A)) nm v y r :
+  diverges ps qs ->
+  walk cr ps k (sel_new nm v) = Ok (y, r) ->
+  match qs with PKey name :: _ => name <> nm | _ => True end ->
+  lookup qs (sel_new nm v) = Ok None.
+Proof.
+  intros D W NK. unfold sel_new in *. destruct (String.eqb nm "") eqn:E.
+  - destruct D as [p q ps qs Hpq|p ps qs D]; destruct p; cbn in W; discriminate.
+  - assert (forall b, b <> nm -> String.eqb nm b = false) as Hne
+        by (intros b Hb; apply String.eqb_neq; congruence).
+    destruct D as [p q ps qs Hpq|p ps qs D].
+    + destruct Hpq; cbn in W; try discriminate. unfold lookup; cbn. now rewrite (Hne _ NK).
+    + destruct p; cbn in W; try discriminate. unfold lookup; cbn. now rewrite (Hne _ NK).
+Qed.
+
+Lemma walk_frame {A} cr ps (k : node -> res (node * A)) :
+  stable ps k ->
+  forall qs n n' r, diverges ps qs -> (no_sel_key_read qs \/ lookup qs n <> Ok None) ->
+  walk cr ps k n = Ok (n', r) -> lookup qs n' = lookup qs n.
+Proof.
+  induction ps as [|p ps IH]; intros S qs n n' r D SC H; [inversion D|].
+  pose proof (stable_tail _ _ _ S) as S'.
+  inversion D as [p0 q ps0 qs' Hpq|p0 ps0 qs' D']; subst; clear D.
+  - (* the paths part here *)
+    destruct (child p n) as [x|] eqn:C.
+    + rewrite (walk_found _ _ _ _ _ _ C) in H.
+      destruct (walk cr ps k x) as [[x' r']| | |] eqn:W; cbn in H; inv H.
+      apply lookup_cons_congr.
+      * eapply child_plug_apart; eauto. eapply keeps_after_walk; eauto.
+      * destruct Hpq; destruct n; cbn in C |- *; try discriminate; auto.
+        destruct (find_index (sel_match nm v) es); [exact I|discriminate].
+    + destruct (walk_missing _ _ _ _ _ _ _ C H) as
+        [[-> _]|[(name & kvs & leaf & y & -> & -> & -> & F & W & ->)
+                |[(nm & v & es & leaf & y & -> & -> & -> & F & W & ->)
+                 |(nm & v & leaf & y & -> & N & _ & _ & ->)]]]; try reflexivity.
+      * inversion Hpq; subst. apply lookup_cons_congr; [|exact I].
+        cbn. now apply find_field_app_other.
+      * inversion Hpq; subst. apply lookup_cons_congr; [|exact I].
+        assert (M : sel_match nm v y = true).
+        { eapply sel_stable; [exact W|apply sel_match_sel_new|]. cbn in S; tauto. }
+        cbn. rewrite (find_index_app_other _ _ _ (sel_match_excl _ _ _ _ M H3)).
+        destruct (find_index (sel_match nm w) es) as [j|] eqn:G; [|reflexivity].
+        destruct (find_index_some _ _ _ G) as [e [He _]].
+        rewrite He. eapply nth_error_app_old; eauto.
+  - (* common first part *)
+    destruct (child p n) as [x|] eqn:C.
+    + rewrite (walk_found _ _ _ _ _ _ C) in H.
+      destruct (walk cr ps k x) as [[x' r']| | |] eqn:W; cbn in H; inv H.
+      assert (Kp : keeps p x') by (eapply keeps_after_walk; eauto).
+      rewrite (lookup_found _ _ _ _ (child_plug _ _ _ _ C Kp)), (lookup_found _ _ _ _ C).
+      eapply IH; eauto.
+      destruct SC as [SC|SC]; [left; eapply no_sel_key_read_tail; eauto|right].
+      now rewrite (lookup_found _ _ _ _ C) in SC.
+    + destruct (walk_missing _ _ _ _ _ _ _ C H) as
+        [[-> _]|[(name & kvs & leaf & y & -> & -> & -> & F & W & ->)
+                |[(nm & v & es & leaf & y & -> & -> & -> & F & W & ->)
+                 |(nm & v & leaf & y & -> & N & _ & _ & ->)]]]; try reflexivity.
+      * assert (L0 : lookup (PKey name :: qs') (Map kvs) = Ok None) by (unfold lookup; cbn; now rewrite F).
+        destruct SC as [SC|SC]; [|congruence].
+        rewrite L0.
+        assert (C1 : child (PKey name) (Map (kvs ++ [(name, y)])) = Some y)
+          by (cbn; now apply find_field_app_same).
+        rewrite (lookup_found _ _ _ _ C1).
+        rewrite (IH S' qs' _ _ _ D' (or_introl (no_sel_key_read_tail _ _ SC)) W).
+        eapply lookup_fresh_none; eauto.
+      * assert (L0 : lookup (PSel nm v :: qs') (Seq es) = Ok None) by (unfold lookup; cbn; now rewrite F).
+        destruct SC as [SC|SC]; [|congruence].
+        rewrite L0.
+        assert (M : sel_match nm v y = true).
+        { eapply sel_stable; [exact W|apply sel_match_sel_new|]. cbn in S; tauto. }
+        assert (C1 : child (PSel nm v) (Seq (es ++ [y])) = Some y).
+        { cbn. rewrite (find_index_app_same _ _ _ F M). apply nth_error_app_last. }
+        rewrite (lookup_found _ _ _ _ C1).
+        rewrite (IH S' qs' _ _ _ D' (or_introl (no_sel_key_read_tail _ _ SC)) W).
+        eapply lookup_sel_new_none; eauto.
+        cbn in SC. destruct qs' as [|[] ?]; tauto.
+Qed.
